@@ -163,6 +163,7 @@ func ActionQuoteState(l *lexer) stateFn {
 
 	for {
 		r := l.next()
+		l.skipCodeText(r)
 		if r == '{' {
 			depth++
 		}
@@ -179,6 +180,35 @@ func ActionQuoteState(l *lexer) stateFn {
 	}
 	l.emit(ActionQuote)
 	return rootState
+}
+
+// skipCodeText is called inside an action or %union body after next()
+// returned r. If r opens a string, a rune or a comment of the target
+// language, that text is consumed up to its end: braces in it are text, not
+// structure. A quote that is not closed on its line is left alone.
+func (l *lexer) skipCodeText(r rune) {
+	pos, loc, prev := l.end, l.loc, l.prev
+	switch {
+	case r == '"' || r == '\'' || r == '`':
+		for c := l.next(); c != r; c = l.next() {
+			if c == '\\' && r != '`' {
+				c = l.next()
+			}
+			if c == eof || (c == '\n' && r != '`') {
+				l.end, l.loc, l.prev = pos, loc, prev
+				return
+			}
+		}
+	case r == '/' && strings.HasPrefix(l.input[l.end:], "/"):
+		for c := l.next(); c != '\n' && c != eof; c = l.next() {
+		}
+	case r == '/' && strings.HasPrefix(l.input[l.end:], "*"):
+		if i := strings.Index(l.input[l.end+1:], "*/"); i >= 0 {
+			for n := l.end + 1 + i + 2; l.end < n; {
+				l.next()
+			}
+		}
+	}
 }
 
 // 'a' '\” and other ,'ab' is error
@@ -349,7 +379,9 @@ func DirectiveUnionState(l *lexer) stateFn {
 	level++
 Loop:
 	for {
-		switch l.next() {
+		r := l.next()
+		l.skipCodeText(r)
+		switch r {
 		case '{':
 			level++
 		case '}':
